@@ -186,6 +186,15 @@ def run():
     filter_obligations(rep, ctx, "C06", finish)
     config_obligations(rep, ctx, finish)
     sub_group_obligations(rep, ctx)
+    # "through a symlink": a followed link's target is canonical before it is walked (the same file reached through two spellings
+    # of its directory would otherwise count as two paths)
+    try:
+        from obligations import C09
+        rep.add(C09.resolve_link_obligation(ctx.lib))
+    except Inconclusive as ex:
+        o = Obligation("resolve_link", "E2 mirsym/z3")
+        o.verdict, o.detail = "inconclusive", str(ex)
+        rep.add(o)
     return rep
 
 
